@@ -295,6 +295,8 @@ class Interp:
         self.facts = facts
         self.models = models          # list of (compiled regex, handler)
         self.stubs = [re.compile(x) for x in stubs]   # crate-local callees summarised as events (returning their receiver)
+        self.fn_stubs = []            # (compiled regex, fn(interp, state, args) -> value): crate-local callees replaced by a summary value
+        self.generic_pipelines = False   # opt-in: iterator chains over opaque collections are summarised per element (rules/models.py)
         self.max_depth = max_depth
         self.max_paths = max_paths
         self.loop_unroll = loop_unroll
@@ -1020,6 +1022,9 @@ class Interp:
             dyn = self.dyn_dispatch(st, c, args[0])
             if dyn is not None:
                 return list(self._call_body(st, dyn, args, depth + 1))
+        for sp, fn in self.fn_stubs:
+            if sp.search(rdef) or sp.search(name):
+                return [(st, "return", fn(self, st, args))]
         for sp in self.stubs:
             if sp.search(rdef) or sp.search(name):
                 from . import models as _MD
@@ -1087,6 +1092,9 @@ class Interp:
         if isinstance(f, Ptr):
             f = self.resolve(st, self.load(st, f))
         if isinstance(f, FnV):
+            for sp, fn in self.fn_stubs:
+                if sp.search(f.defn):
+                    return [(st, "return", fn(self, st, list(args)))]
             body = self.facts.bodies.get(f.defn)
             if body is not None:
                 if f.kind == "closure":
